@@ -42,7 +42,7 @@ def _mentions(cls, name, comp):
 def static_problems(ometa):
     bad = []
     for key, m in ometa.items():
-        if sorted(m["json_state"]) != sorted(m["derived_state"]):
+        if m["json_state"] and sorted(m["json_state"]) != sorted(m["derived_state"]):
             bad.append(f"{key}: fields_C01.json says the state of the owned {m['class']} is "
                        f"{m['json_state']}, its __cache_state__ (translator) is {m['derived_state']}")
         if m["dangling"]:
